@@ -58,7 +58,9 @@ BAD = ['1+', '(1', 'NOPE()', 'nope', '1/0', '#N/A', '#REF!+1', 'SUM(', '"abc', '
        'SQRT(-1)', 'VLOOKUP(1,2)', 'INDEX(LL,99)', 'MATCH(99,LL,0)', 'DATE("x",1,1)', '{1,2', 'F(', 'RAISECELL',
        # failing calls under something that observes or discards errors (debug on / off must agree here too)
        'IFERROR(BOOM(),0)', 'ISERROR(BOOM())', 'IF(TRUE,"n/a",BOOM())', 'IFERROR(XL(),0)', 'ISERROR(XL())', 'ISNA(XL())', 'IFERROR(SQRT(-1),0)',
-       'IFERROR(nope,0)', 'IFERROR(NOPE(),0)', 'IFERROR(1/0,BOOM())', 'IF(FALSE,BOOM(),2)', 'ISERROR(RAISECELL)', 'IFERROR(LISTEN,0)']
+       'IFERROR(nope,0)', 'IFERROR(NOPE(),0)', 'IFERROR(1/0,BOOM())', 'IF(FALSE,BOOM(),2)', 'ISERROR(RAISECELL)', 'IFERROR(LISTEN,0)',
+       # references whose listener raises (the evaluation is aborted in the middle of a callback), in several spellings
+       'Z9', 'Z9+1', '$Z$9', 'z9', 'SUM(Z9,1)', 'IFERROR(Z9,0)', '1+Z9+A1', 'Y8:Y9', 'SUM(Y8:Y9)', 'y8:Y9', 'Y9:Y8', 'LISTEN', 'LISTEN+1', 'BOOM()+BOOM()']
 
 
 def build(debug):
@@ -84,7 +86,12 @@ def build(debug):
             raise Boom('cell')
         done(cells.get(cell.label))
     p.on('callCellValue', on_cell)
-    p.on('callRangeValue', lambda a, b, done: done([[1, 2], [3, 4]]))
+
+    def on_range(a, b, done):
+        if a.label == 'Y8':
+            raise Boom('range')
+        done([[1, 2], [3, 4]])
+    p.on('callRangeValue', on_range)
 
     def on_var(name, done):
         if name == 'LISTEN':
